@@ -93,6 +93,22 @@ fn with_env<T>(manifest: Option<&str>, cwd: Option<&str>, f: impl FnOnce() -> T)
     r
 }
 
+/// canonical text of the parsed `edit` option (C15 correspondence)
+fn fmt_edit(e: &crate::model::EditActor) -> String {
+    fn b(x: bool) -> &'static str { if x { "1" } else { "0" } }
+    fn l(x: &(Option<Vec<(syn::Ident, bool)>>, bool)) -> String {
+        let body = match &x.0 {
+            None => "N".to_string(),
+            Some(v) => format!("S[{}]", v.iter().map(|(i, f)| format!("{}:{}", i, b(*f))).collect::<Vec<_>>().join(",")),
+        };
+        format!("{}/{}", body, b(x.1))
+    }
+    fn t(x: &((bool, bool), (Option<Vec<(syn::Ident, bool)>>, bool), (Option<Vec<(syn::Ident, bool)>>, bool))) -> String {
+        format!("{}{};{};{}", b(x.0 .0), b(x.0 .1), l(&x.1), l(&x.2))
+    }
+    format!("remove={}|script={}|live={}", b(e.remove), t(&e.script), t(&e.live))
+}
+
 fn run_fn(name: &str, f: &[Vec<u8>]) -> (String, Vec<Vec<u8>>) {
     let arg = |i: usize| -> String { f.get(i).map(|x| s(x)).unwrap_or_default() };
     let r = catch_unwind(AssertUnwindSafe(|| -> Vec<Vec<u8>> {
@@ -158,6 +174,29 @@ fn run_fn(name: &str, f: &[Vec<u8>]) -> (String, Vec<Vec<u8>>) {
                 // canonical printing (the printer `write::write_file` uses) of any source text
                 let file = syn::parse_file(&arg(0)).expect("file does not parse");
                 vec![prettyplease::unparse(&file).into_bytes()]
+            }
+            "edit_parse" => {
+                // args: mac (actor|family), attribute argument list  -> EditActor tuples (family: family line + one line per member)
+                let mac = if arg(0) == "family" { crate::model::Mac::Family } else { crate::model::Mac::Actor };
+                let nested = syn::parse::Parser::parse_str(
+                    syn::punctuated::Punctuated::<syn::Meta, syn::Token![,]>::parse_terminated, &arg(1)).expect("attr does not parse");
+                let aaa = crate::model::attribute::ActorAttributeArguments::from(nested, mac);
+                let mut out = vec![fmt_edit(&aaa.edit).into_bytes()];
+                for (n, m) in aaa.members.iter() {
+                    out.push(format!("{}={}", n, fmt_edit(&m.edit)).into_bytes());
+                }
+                out
+            }
+            "code_edit" => {
+                // args: mac (actor|family), attribute argument list, impl item -> (code, edit) of ModelSdpl::get_code_edit
+                let mac = if arg(0) == "family" { crate::model::Mac::Family } else { crate::model::Mac::Actor };
+                let nested = syn::parse::Parser::parse_str(
+                    syn::punctuated::Punctuated::<syn::Meta, syn::Token![,]>::parse_terminated, &arg(1)).expect("attr does not parse");
+                let item_impl = syn::parse_str::<syn::ItemImpl>(&arg(2)).expect("item does not parse");
+                let aaa = crate::model::attribute::ActorAttributeArguments::from(nested, mac);
+                let mut model_sdpl = crate::model::generate_model(aaa, &item_impl);
+                let (code, edit) = model_sdpl.get_code_edit();
+                vec![quote::quote!{ #code }.to_string().into_bytes(), quote::quote!{ #edit }.to_string().into_bytes()]
             }
             _ => panic!("unknown fn job {}", name),
         }
